@@ -7,17 +7,10 @@ import (
 	"go.mongodb.org/mongo-driver/bson/primitive"
 )
 
-// TODO: IEEE-754 propagation for non-finite operands (Decimal128 NaN / ±Inf
-//  and float64 NaN / ±Inf when used with a Decimal128 partner). They
-//  currently collapse to zero on conversion, so Add/Mul/Mod produce
-//  numerically wrong (but non-panicking) results — MongoDB instead promotes
-//  to Decimal128 and propagates the special value (NaN op anything = NaN;
-//  sign rules on ±Inf; finite % ±Inf = dividend). A proper fix would
-//  classify each operand (Decimal128 via BigInt's ErrParseNaN /
-//  ErrParseInf / ErrParseNegInf sentinels; float64 via math.IsNaN /
-//  math.IsInf), short-circuit arithmetic with the canonical Decimal128
-//  special-value singletons, and drop the safeDecMod / safeFloatToDec
-//  workarounds for the non-finite case.
+// TODO: IEEE-754 propagation for non-finite operands in Mod (Decimal128 NaN /
+//  ±Inf and float64 NaN / ±Inf when used with a Decimal128 partner). They
+//  still collapse to zero on conversion there (finite % ±Inf should be the
+//  dividend). Add and Mul propagate the special values, see nonFinite.
 
 func decToD128(d decimal.Decimal) primitive.Decimal128 {
 	dd, _ := primitive.ParseDecimal128FromBigInt(d.Coefficient(), int(d.Exponent()))
@@ -98,11 +91,95 @@ func narrowInt32(v int64) interface{} {
 	return v
 }
 
+var (
+	d128NaN, _    = primitive.ParseDecimal128("NaN")
+	d128PosInf, _ = primitive.ParseDecimal128("Infinity")
+	d128NegInf, _ = primitive.ParseDecimal128("-Infinity")
+)
+
+// numberShape classifies a number: whether it is NaN or infinite, negative
+// and zero. It returns false for values that are not numbers.
+func numberShape(v interface{}) (nan, inf, neg, zero, ok bool) {
+	switch n := v.(type) {
+	case int32:
+		return false, false, n < 0, n == 0, true
+	case int64:
+		return false, false, n < 0, n == 0, true
+	case float64:
+		return math.IsNaN(n), math.IsInf(n, 0), math.Signbit(n), n == 0, true
+	case primitive.Decimal128:
+		if n.IsNaN() {
+			return true, false, false, false, true
+		}
+		if sign := n.IsInf(); sign != 0 {
+			return false, true, sign < 0, false, true
+		}
+		big, _, err := n.BigInt()
+		if err != nil {
+			return true, false, false, false, true
+		}
+		high, _ := n.GetBytes()
+		return false, false, high>>63 == 1, big.Sign() == 0, true
+	}
+	return false, false, false, false, false
+}
+
+// nonFinite computes a sum or product in which a Decimal128 takes part and at
+// least one operand is NaN or infinite following IEEE 754: NaN propagates,
+// opposite infinities add up to NaN, an infinity times zero is NaN and
+// otherwise an infinity keeps its (combined) sign. It returns false if the
+// operands do not fall into this class.
+func nonFinite(a, b interface{}, mul bool) (interface{}, bool) {
+	// check types
+	_, da := a.(primitive.Decimal128)
+	_, db := b.(primitive.Decimal128)
+	if !da && !db {
+		return nil, false
+	}
+
+	// get shapes
+	nanA, infA, negA, zeroA, okA := numberShape(a)
+	nanB, infB, negB, zeroB, okB := numberShape(b)
+	if !okA || !okB || !(nanA || nanB || infA || infB) {
+		return nil, false
+	}
+
+	// propagate NaN
+	if nanA || nanB {
+		return d128NaN, true
+	}
+
+	// get sign of result
+	var neg bool
+	if mul {
+		if zeroA || zeroB {
+			return d128NaN, true
+		}
+		neg = negA != negB
+	} else {
+		if infA && infB && negA != negB {
+			return d128NaN, true
+		}
+		neg = (infA && negA) || (infB && negB)
+	}
+
+	if neg {
+		return d128NegInf, true
+	}
+
+	return d128PosInf, true
+}
+
 // Add will add together two numerical values. It accepts and returns int32,
 // int64, float64 and decimal128. An int32 result that overflows is promoted to
 // int64; Missing is returned if an int64 result overflows or a decimal128 result
 // is not representable.
 func Add(num, inc interface{}) interface{} {
+	// handle non-finite decimal arithmetic
+	if res, ok := nonFinite(num, inc, false); ok {
+		return res
+	}
+
 	switch num := num.(type) {
 	case int32:
 		switch inc := inc.(type) {
@@ -175,6 +252,11 @@ func Add(num, inc interface{}) interface{} {
 // int64; Missing is returned if an int64 result overflows or a decimal128 result
 // is not representable.
 func Mul(num, mul interface{}) interface{} {
+	// handle non-finite decimal arithmetic
+	if res, ok := nonFinite(num, mul, true); ok {
+		return res
+	}
+
 	switch num := num.(type) {
 	case int32:
 		switch mul := mul.(type) {
